@@ -368,6 +368,11 @@ def bounded(ctx, env, real):
     # int(str) (4300 digits by default) - constructing, decomposing and printing never needs their numeric value
     big = "9" * 4301
     strings += [big + ":1.0-1", "1:" + big + "-1", "1." + big, "1-" + big, big, "0" * 4301 + ":1"]
+    # lengths around every plausible fixed bound (64 / 65, 255 / 256 / 257, 1023 / 1024 / 1025 characters) for the whole
+    # string and for each component
+    for n in (63, 64, 65, 66, 127, 128, 129, 255, 256, 257, 258, 1023, 1024, 1025, 5000):
+        body = ("a1.+~" * n)[:n]
+        strings += [body, "1:" + body, body + "-1", "1-" + body, "2:1.0-" + body, "1:" + body + "-" + body, ("3" * n) + ":1"]
     # characters that Python's str methods (isdigit, isalnum, int(), lower ...) treat like ASCII ones but the Policy does not
     exotic = ["\u0663", "\uff17", "\u00b2", "\u212a", "\u0131", "\u017f", "_", "\u00e9"]
     strings += [a + b + c for a in ("", "1", "1:", "1.") for b in exotic for c in ("", "0", "-1", b)]
@@ -396,8 +401,9 @@ def bounded(ctx, env, real):
                 samples.append({"input": s, "fields": list(got)})
     hist = 0
     if fail is None:
-        values = {"epoch": [None, "0", "1", "", "x", "1:", "٠", "9" * 4301], "upstream_version": ["1", "1.0", "a-b", "a:b", "a:3-4", "", " ", "1\n", "é"],
-                  "debian_revision": [None, "1", "", "a-b", "a:b", "~1", "1 "], "debian_version": [None, "2", "b:c"],
+        long65, long300 = ("r1.+~" * 13)[:65], ("u2.+~" * 60)[:300]
+        values = {"epoch": [None, "0", "1", "", "x", "1:", "٠", "9" * 4301, "7" * 300], "upstream_version": ["1", "1.0", "a-b", "a:b", "a:3-4", "", " ", "1\n", "é", long300, long65 + "-" + long65],
+                  "debian_revision": [None, "1", "", "a-b", "a:b", "~1", "1 ", long65, long300], "debian_version": [None, "2", "b:c"],
                   "full_version": ["2.0-1", "1:2", "x:1", "", "1-", "3\n"]}
         rounds = 6000 if ctx.tier == "quick" else 30000
         for rnd in range(rounds):
